@@ -228,6 +228,16 @@ def process_config(job):
                 for fr in tb:
                     if '/prysm/' in fr.filename:
                         where = '%s:%d' % (os.path.relpath(fr.filename, REPO), fr.lineno)
+                if not where:
+                    # raised outside the analysed code.  In the harness itself (e.g. a result of unexpected shape): a candidate only if the
+                    # real run fails with the same exception type at the same harness line; anywhere else (engine): inconclusive
+                    hl = [fr.lineno for fr in tb if '/props/' in fr.filename]
+                    last = tb[-1].filename if tb else ''
+                    if not hl or '/symx/' in last:
+                        res['inconclusive'] += 1
+                        res['notes'].append('path %d: HARNESS-ERROR outside prysm: %s: %s' % (res['paths'], type(err).__name__, str(err)[:200]))
+                        continue
+                    where = 'harness:%d' % hl[-1]
                 obligations.append(symh.Obligation('no-exception', 'raises', None, None,
                                                    '%s: %s @%s' % (type(err).__name__, str(err)[:200], where)))
             ctx.pre = pre_snapshot
@@ -560,7 +570,14 @@ def finish(prop, mod, tier, seed, results, t0):
         detail = ''
         if item['kind'] == 'raises':
             if label == 'no-exception':
-                reproduced = out['exception'] is not None
+                # reproduced only if the real code itself raised (a frame inside prysm), not the harness
+                ex = out['exception']
+                snote = item.get('note') or ''
+                if '@harness:' in snote:
+                    reproduced = ex is not None and not ex.get('where') and ex.get('hline') == int(snote.rsplit('@harness:', 1)[1]) \
+                        and snote.startswith(ex.get('type', '?') + ':')
+                else:
+                    reproduced = ex is not None and bool(ex.get('where'))
                 detail = json.dumps(out['exception'])
             else:
                 rec = recs.get(label)
